@@ -363,7 +363,7 @@ fn sequences(alpha: &[Step], len: usize) -> impl Iterator<Item = Case> + '_ {
 
 pub fn run(ctx: &Ctx, rep: &mut Report) {
     crate::interpose::virtual_clock(true);
-    let n = ctx.amount(12_000, 250_000);
+    let n = ctx.amount(100_000, 600_000);
     explore(ctx, rep, "single-node", n, prop::collection::vec(step_strategy(), 1..10).prop_map(|steps| Case { steps }), |c| run_case(ctx, c));
     let alpha = alphabet();
     let max_len = ctx.amount(4, 6) as usize;
